@@ -22,7 +22,7 @@ RULE = sqlmon.RULE_HISTORIES + ' Cancellation of arbitrary groups in any order (
 ASSUMPTIONS = sqlmon.COMMON_ASSUMPTIONS
 SHARDS = {'quick': 4, 'thorough': 16}
 TIMEOUT = {'quick': 900, 'thorough': 3600}
-FLOORS = {'cancels_applied': 100, 'repeated_cancels_checked': 10, 'is_job_cancelled_probes': 2000, 'submissions_after_cancel_checked': 20,
+FLOORS = {'scripted_additions_after_cancel_attempted': 100, 'scripted_addition_outcomes': 4, 'cancels_applied': 100, 'repeated_cancels_checked': 10, 'is_job_cancelled_probes': 2000, 'submissions_after_cancel_checked': 20,
           'jobs_under_two_cancelled_groups_probed': 1}
 
 SUBMIT_OPS = ('submit_job_bunch', 'submit_group_bunch', 'create_update', 'resend')
@@ -155,6 +155,82 @@ def _monitors(p):
     return [e, c]
 
 
+async def scripted(runner, w, fz, rng):
+    """directed prefix for the clause "new jobs and sub-groups cannot be added beneath it": an update is uploaded in several
+    requests and a cancellation lands in between.  Everything sent after the cancel beneath the cancelled group - job bunch,
+    sub-group named by its absolute parent, sub-group named by its in-update parent, a further update - must be refused."""
+    from aiohttp import web
+    from batch.front_end.validate import validate_and_clean_jobs, validate_job_groups
+    from vf.world.oracles import View
+    from vf.world.world import userdata
+
+    ctx = runner.ctx
+    user = 'alice'
+    ud = userdata(user)
+    fe = w.fe
+    bid = await fe._create_batch({'billing_project': 'bp-a', 'token': 'c07s', 'n_jobs': 1, 'n_job_groups': 1}, ud, w.db)
+    fz.batches[bid] = {'user': user, 'token': 'c07s', 'groups': {0, 1}, 'cancelled': set(), 'deleted': False}
+    u1, _, _ = await fe._create_batch_update(bid, 'c07s', 1, 1, user, w.db)
+    gs = [{'job_group_id': 1, 'absolute_parent_id': 0}]
+    validate_job_groups(gs)
+    await fe._create_job_groups(w.db, bid, u1, user, gs)
+    js = [{'job_id': 1, 'in_update_job_group_id': 1, 'process': {'type': 'docker', 'command': ['true'], 'image': 'u'}, 'resources': {'cpu': '1', 'memory': 'standard', 'storage': '1Gi'}}]
+    validate_and_clean_jobs(js)
+    await fe._create_jobs(ud, js, bid, u1, w.fe_app)
+    await fe._commit_update(w.fe_app, bid, u1, user, w.db)
+    # update 2 (open): groups 2 (under the root) and 3 (under 2, named by its in-update id), one job in group 2
+    u2, start_g, start_j = await fe._create_batch_update(bid, 'c07s-2', 2, 2, user, w.db)
+    first = [{'job_group_id': 1, 'absolute_parent_id': rng.choice([0, 0, 1])}]
+    validate_job_groups(first)
+    await fe._create_job_groups(w.db, bid, u2, user, first)
+    which = rng.choice(['batch', 'batch', 'first-group-parent'])
+    target = 0 if which == 'batch' else first[0]['absolute_parent_id']
+    await fe._cancel_job_group(w.fe_app, bid, target)
+    fz.batches[bid]['cancelled'].add(target)
+    ctx.seen('scripted_cancel_between_bunches', which)
+    v0 = View(w.engine)
+    cancelled = {(b, g) for (b, g) in v0.groups if v0.group_cancelled(b, g)}
+
+    async def attempt(what, coro, key):
+        before = set(View(w.engine).groups), set(View(w.engine).jobs), set(View(w.engine).updates)
+        try:
+            await coro
+            outcome = 'accepted'
+        except web.HTTPException as e:
+            outcome = f'http:{e.status}'
+        except Exception as e:  # pylint: disable=broad-except
+            outcome = 'error:' + type(e).__name__
+        v = View(w.engine)
+        new_groups = [g for g in set(v.groups) - before[0] if any((g[0], a) in cancelled for a in v.ancestors.get(g, set()) - {g[1]})]
+        new_jobs = [k for k in set(v.jobs) - before[1] if (k[0], v.jobs[k]['job_group_id']) in cancelled]
+        new_updates = [u for u in set(v.updates) - before[2] if (u[0], 0) in cancelled]
+        ctx.count('scripted_additions_after_cancel_attempted')
+        ctx.seen('scripted_addition_outcomes', what + ':' + outcome)
+        if new_groups or new_jobs or new_updates:
+            runner.violation(key, f'scripted: {what} after the cancellation of {(bid, target)} was {outcome} and left {new_groups or new_jobs or new_updates} beneath the cancelled group', {'what': what, 'outcome': outcome})
+    if (bid, start_g) in cancelled:  # the first new group lies beneath the cancelled group
+        second = [{'job_group_id': 2, 'in_update_parent_id': 1}]
+        validate_job_groups(second)
+        await attempt('sub-group named by its in-update parent', fe._create_job_groups(w.db, bid, u2, user, second), 'group-added-under-cancelled-group')
+        jb = [{'job_id': 1, 'in_update_job_group_id': 1, 'process': {'type': 'docker', 'command': ['true'], 'image': 'u'}, 'resources': {'cpu': '1', 'memory': 'standard', 'storage': '1Gi'}}]
+        validate_and_clean_jobs(jb)
+        await attempt('job bunch into a group created before the cancel', fe._create_jobs(ud, jb, bid, u2, w.fe_app), 'job-added-under-cancelled-group')
+    third = [{'job_group_id': 2, 'absolute_parent_id': target}]
+    validate_job_groups(third)
+    await attempt('sub-group named by its absolute parent', fe._create_job_groups(w.db, bid, u2, user, third), 'group-added-under-cancelled-group')
+    if target == 0:
+        await attempt('further update on the cancelled batch', fe._create_batch_update(bid, 'c07s-3', 1, 0, user, w.db), 'update-added-to-cancelled-batch')
+
+
 def run(ctx):
+    from vf.world.patterns import Patterns
+    from vf.world.run import HistoryRunner
+
+    p = Patterns()
+    r = HistoryRunner(ctx, [p] + _monitors(p), cfg={'weights': dict(sqlmon.WEIGHTS_RUN)}, n_ops=ctx.pick(10, 20), setup=scripted)
+    for i, rng in ctx.cases(ctx.pick(15, 100), 'scripted'):
+        res = r.run_case(i, rng)
+        ops = res.get('ops', [])
+        ctx.case(sample={'scripted-prefix+ops': ops[:30]}, key=('scripted', i, tuple(ops)), nontrivial=True)
     sqlmon.standard_run(ctx, _monitors,
                         cfg={'max_groups_per_update': 4, 'weights': {'cancel_batch': 2, 'cancel_job_group': 6, 'submit_group_bunch': 8, 'cancel_ready': 4, 'cancel_running': 3, 'cancel_creating': 2}})
